@@ -131,6 +131,7 @@ void world_end(World &W) {
     for (auto &s : W.slots) if (s.live) destroy_slot(W, s);
     thread_arena().release_all();
     set_env(W, false, "");
+    for (auto &nm : W.other_env) unsetenv(nm.c_str());
     size_t now = own::live() - (size_t) W.orphan_blocks;
     W.trace.add("end.live", (i64) now - (i64) W.baseline_live);
     if (now != W.baseline_live) {
@@ -1034,6 +1035,10 @@ void exec_op(World &W, const Json &op, int index) {
     else if (k == "VSM") op_vsm(W, op);
     else if (k == "SIGNAL") sched_signal(op["e"].in(0));
     else if (k == "WAIT") sched_wait(op["e"].in(0));
+    else if (k == "ENV" && op.has("name")) {
+        // some other variable of the process environment (e.g. one whose name merely starts with the switch's name): never an input
+        if (!W.threaded) { if (op["val"].isnull()) unsetenv(op["name"].str().c_str()); else { setenv(op["name"].str().c_str(), op["val"].str().c_str(), 1); W.other_env.insert(op["name"].str()); } W.fault("ENV.other-variable"); }
+    }
     else if (k == "ENV") { if (op["val"].isnull()) set_env(W, false, ""); else set_env(W, true, op["val"].str()); W.fault("ENV"); }
     else exec_op_misc(W, op, k);
     if (!W.threaded && seq_locks_held() != 0) {
